@@ -198,6 +198,8 @@ class Run:
             if only and not any(x in sl.name for x in only.split(',')): continue
             self.run_slice(S, sl, findings)
         if only: self.unsupported.append({'unsupported': 'VERIF_SLICES filter active: partial run'})
+        if hasattr(prop, 'FILE_CHECK') and not self.violations:
+            self.file_check_phase(S, prop.FILE_CHECK)
         try:
             if hasattr(prop, 'ENGINE_B') and not self.violations:
                 cfgs = prop.ENGINE_B if isinstance(prop.ENGINE_B, list) else [prop.ENGINE_B]
@@ -205,6 +207,34 @@ class Run:
         finally:
             S.close()
         return self.finish()
+
+    # ------------------------------------------------------------------ file-level clauses on emitted witnesses (concrete, real backend)
+    def file_check_phase(self, S, cfg):
+        from . import engineb as B
+        K = cfg['max_quick'] if self.tier == 'quick' else cfg['max_thorough']
+        pool = [list(x) for x in cfg.get('fixed', [])] + list(self.ok_witnesses.get(cfg['template'], []))
+        seen = set(); chosen = []
+        for a in pool:
+            k = tuple(int(x) for x in a)
+            if k in seen: continue
+            seen.add(k); chosen.append(a)
+        work = os.path.join(os.path.dirname(S.art['dir']), 'kani', self.prop.ID + '-files-' + cfg['template'])
+        os.makedirs(work, exist_ok=True)
+        n = 0
+        for a in chosen[:K]:
+            try:
+                summ, files = B.emit(S, cfg['template'], a, work)
+            except B.EmitError as e:
+                self.unsupported.append({'unsupported': 'file check emit: %s' % str(e)[:600]}); continue
+            if summ[0] != 'ok': continue
+            n += 1
+            for pr in cfg['fn'](summ, files, a):
+                self.violations.append({'slice': 'emitted-files', 'template': cfg['template'], 'query': 'emitted-files:' + pr[:80], 'args': [to_i64(x) for x in a],
+                                        'expected': 'one file per module; every declared item once, in the file of its module', 'native': pr})
+        if self.engine_b is None: self.engine_b = []
+        self.engine_b.append({'template': cfg['template'], 'file_level_witnesses': n, 'kinds': ['emitted-files']})
+        self.validated += n
+        print('  emitted files: %d witness programs inspected' % n, flush=True)
 
     # ------------------------------------------------------------------ Engine B: Kani on the emitted bindings
     def engine_b_phase(self, S, cfg):
